@@ -20,6 +20,10 @@ def main() -> None:
         if a.startswith("--only"):
             only = set(a.split("=", 1)[1].split(","))
     all_checks = "--all-checks" in sys.argv
+    since = 0.0
+    for a in sys.argv[1:]:
+        if a.startswith("--since="):
+            since = float(a.split("=", 1)[1])
     anchors: dict[str, set[str]] = {}
     for line in open(os.path.join(ROOT, "properties.jsonl")):
         p = json.loads(line)
@@ -30,6 +34,9 @@ def main() -> None:
         d = os.path.join(ROOT, "seeded", name)
         if not os.path.isdir(d) or (only and name not in only):
             continue
+        sc = os.path.join(d, "seedcheck.json")
+        if since and os.path.exists(sc) and os.path.getmtime(sc) >= since:
+            continue  # already done in this campaign
         prop = name.split("-")[0]
         files = set(re.findall(r"^\+\+\+ b/(\S+)", open(os.path.join(d, "patch.diff")).read(), re.M))
         related = {prop}
@@ -52,16 +59,16 @@ def main() -> None:
         elif "--owner-first" in sys.argv:
             # the owning check first; the sibling checks only when it does not report the change
             res = run({prop})
-            if res and res["checks"].get(prop, {}).get("rc") != 1 and related - {prop}:
+            if res and "checks" in res and res["checks"].get(prop, {}).get("rc") != 1 and related - {prop}:
                 more = run(related - {prop}, skip_tests=True)
-                if more:
+                if more and "checks" in more:
                     res["checks"].update(more["checks"])
         else:
             res = run(related)
         if res:
             with open(os.path.join(d, "seedcheck.json"), "w") as fh:
                 fh.write(json.dumps(res) + "\n")
-        print(name, "done", sorted(res["checks"]) if res else "NO RESULT", flush=True)
+        print(name, "done", sorted(res.get("checks", {})) if res else "NO RESULT", flush=True)
 
 
 if __name__ == "__main__":
